@@ -63,6 +63,34 @@ Theorem C05_consumed_set_shape : forall m tm r h dev recips ab,
     consume_list (h ++ map (fun i => (dev, i)) buf) (update_state r).
 Proof. exact action_consumed_list. Qed.
 
+(* ---- lifted to whole frames (Proofs/FrameLiftP.v): the evaluation sequence of ContextInstances::update ---- *)
+From BEI Require Import Model.Frame Spec.Events Spec.ReadSpec Proofs.StateP Proofs.ActionP Proofs.InstanceP Proofs.ConsumeP Proofs.RegistryP Proofs.FanoutP Proofs.FrameLiftP.
+Theorem C05_every_read_of_a_frame : forall w f,
+  exists hs : list (list (device * input)),
+    Forall2 consumes_of (frame_evals w f) hs /\
+    (forall k e, nth_error (frame_evals w f) k = Some e ->
+       let h := concat (firstn k hs) in
+       er_consumed e = consume_list h (update_state (f_raw f)) /\
+       (forall j, reader_value (f_raw f) (er_consumed e) (er_dev e) j =
+                  if hidden h (er_dev e) j then zero_of j else spec_read (f_raw f) (ui_any (f_raw f)) (er_dev e) j)).
+Proof. exact frame_consumed. Qed.
+Theorem C05_every_read_of_an_update : forall tm r gs h0,
+  exists hs : list (list (device * input)),
+    Forall2 (fun e h =>
+               exists buf, incl buf (map ib_input (ab_inputs (er_bind e))) /\
+                 h = (if aid_consume (ab_id (er_bind e)) &&
+                         negb (state_eqb (match lookup (ab_id (er_bind e)) (o_actions (er_out e)) with
+                                          | Some d => d_state d | None => SNone end) SNone)
+                      then map (fun i => (er_dev e, i)) buf else []))
+            (evaluations tm r (consume_list h0 (update_state r)) gs) hs /\
+    (forall k e, nth_error (evaluations tm r (consume_list h0 (update_state r)) gs) k = Some e ->
+       let h := h0 ++ concat (firstn k hs) in
+       er_consumed e = consume_list h (update_state r) /\
+       (forall j, reader_value r (er_consumed e) (er_dev e) j =
+                  if hidden h (er_dev e) j then zero_of j else spec_read r (ui_any r) (er_dev e) j)) /\
+    ro_consumed (reg_update tm r (consume_list h0 (update_state r)) gs) = consume_list (h0 ++ concat hs) (update_state r).
+Proof. exact evaluations_consumed. Qed.
+
 Example C05_nonvacuous :
   related None None (IKey 1 2) (IKey 2 2) = true /\ related None None (IKey 1 2) (IKey 1 4) = true /\
   related None None (IKey 1 2) (IKey 2 4) = false /\ related None (Some 0) (IPadButton 0) (IPadButton 0) = false /\
@@ -79,3 +107,5 @@ Print Assumptions C05_state_none_consumes_nothing.
 Print Assumptions C05_fresh_every_frame.
 Print Assumptions C05_read_in_frame.
 Print Assumptions C05_consumed_set_shape.
+Print Assumptions C05_every_read_of_a_frame.
+Print Assumptions C05_every_read_of_an_update.
